@@ -785,6 +785,46 @@ def check_fs_history(case, stats):
         raise Violation(case, "source string %r parsed while a file of that name existed and again after it was removed: %s" % (name, diff_text(gone, want_text, "after removal", "as text")))
 
 
+def check_long_history(case, stats):
+    """long histories through ONE parser + ONE matcher (+ ONE compiler): many different dialects by header, then the early ones again; the same
+    documents as feature FILES through scanner objects made one after the other (the previous scanner is dropped only once the next exists)"""
+    from vlib.refs import DIALECTS
+    names = sorted(DIALECTS)
+    k = case["dialects"]
+    order = names[case["start"]:case["start"] + k] + names[case["start"]:case["start"] + 5] + ["en"] + names[case["start"] + k - 3:case["start"] + k]
+    parser, matcher = gh.Parser(), gh.TokenMatcher(case["default"])
+    stats.case((case["start"], k, case["default"], case["files"]), True, sample=case)
+    keep = None
+    for i, d in enumerate(order):
+        D = DIALECTS[d]
+        text = "# language: %s\n%s: f%d\n %s: s\n  %sx\n  %sy\n" % (d, D["feature"][0], i, D["scenario"][-1], D["given"][-1], D["then"][-1])
+        if d == "en" and i % 2:
+            text = text.split("\n", 1)[1] if case["default"] == "en" else text
+        want = fresh(text, case["default"], False)
+        if case["files"]:
+            path = "hist-%d-%d.feature" % (os.getpid(), i)
+            with open(path, "w", encoding="utf8") as f:
+                f.write(text)
+            try:
+                keep = gh.TokenScanner(path)   # the plain loop "scanner = TokenScanner(p); parser.parse(scanner)": the previous scanner is dropped here
+                got = norm_result(gh.parse(keep, parser=parser, matcher=matcher))
+            finally:
+                os.remove(path)
+        else:
+            got = norm_result(gh.parse(text, parser=parser, matcher=matcher))
+        if got != want:
+            raise Violation(case, "document #%d (dialect %s) of a history of %d documents in %d dialects%s differs from fresh instances: %s" % (
+                i, d, len(order), k, " read from files" if case["files"] else "", diff_text(got, want, "history", "fresh")))
+    del keep
+
+
+def unit_long_history(a):
+    stats = Stats()
+    sweep(stats, [{"sub": "long-history", "start": st_, "dialects": k, "default": dflt, "files": files}
+                  for st_ in (0, 30) for k in (8, 16, 17, 18, 33, 40) for dflt in ("en", "fr") for files in (False, True)], check_long_history)
+    return stats
+
+
 def unit_fs(a):
     stats = Stats()
     names = ["x.feature", "dir-less name.feature", "Feature: f", "ünï.feature", "a"]
@@ -798,6 +838,8 @@ def replay(case, stats):
         return check_fs_history(case, stats)
     if case["sub"] == "nested":
         return check_nested(case, stats)
+    if case["sub"] == "long-history":
+        return check_long_history(case, stats)
     return {"history": check_history, "stream-history": check_stream_history, "reset": check_reset, "schedule": check_schedule, "determinism": check_determinism, "twice": check_twice, "threads": check_threads, "first-use-race": check_first_use_race}[case["sub"]](case, stats)
 
 
@@ -808,6 +850,7 @@ def run(ctx):
     ctx.units("pool-pairs-triples", unit_pool, [{"lengths": [2, 3], "sample": 3 if q else 0, "seed": ctx.seed, "shard": i, "nshards": ns} for i in range(ns)], procs=ns)
     ctx.units("stream-pool-pairs-triples", unit_stream_pool, [{"lengths": [2, 3], "sample": 0, "seed": ctx.seed, "shard": i, "nshards": ns} for i in range(ns)], procs=ns)
     ctx.units("shared-keyword-dialect-pairs", unit_shared_keywords, [{"shard": i, "nshards": ns} for i in range(ns)], procs=ns)
+    ctx.units("long-histories-many-dialects-and-files", unit_long_history, [{}])
     ctx.units("file-appears-and-disappears", unit_fs, [{}])
     ctx.units("sampled-histories", unit_sampled, [{"n": 180 if q else 2000, "seed": ctx.seed, "shard": i} for i in range(8 if q else 16)], procs=16)
     ctx.units("matcher-reset", unit_reset, [{"n": 1500 if q else 8000, "seed": ctx.seed, "shard": i} for i in range(8 if q else 16)], procs=16)
